@@ -3,6 +3,8 @@
 //! `AddressSpace` built from the case: nodes (numeric ids `ns * 2^32 + value`, browse names
 //! `(namespace, code)`: code 0 = null string, 1 = "", k >= 2 = "n<k>") and reference triples.
 //! Output: `status, #targets, sorted distinct target ids, #targets returned (with repetitions)`.
+//! One case in ten is a neighbourhood of the standard node set (`gen_std`), run against the server's
+//! real address space.
 #[path = "../util.rs"]
 mod util;
 use util::*;
@@ -25,7 +27,9 @@ pub struct Node { id: i128, bns: i128, bname: i128 }
 #[derive(Clone, Debug)]
 pub struct Elem { reftype: i128, inv: bool, sub: bool, tns: i128, tname: i128 }
 #[derive(Clone, Debug)]
-pub struct Case { nodes: Vec<Node>, refs: Vec<(i128, i128, i128)>, start: i128, path: Option<Vec<Elem>> }
+/// `std`: Some(dictionary of browse names, code k = dict[k - 2]) = the case is a neighbourhood of the standard
+/// node set and the service runs against the server's real address space
+pub struct Case { nodes: Vec<Node>, refs: Vec<(i128, i128, i128)>, start: i128, path: Option<Vec<Elem>>, std: Option<Vec<String>> }
 pub struct P;
 
 fn nid(z: i128) -> NodeId { NodeId::new((z >> 32) as u16, (z & 0xffff_ffff) as u32) }
@@ -36,20 +40,29 @@ fn name_of(code: i128) -> UAString {
     match code { 0 => UAString::null(), 1 => UAString::from(""), k => UAString::from(format!("n{}", k)) }
 }
 fn qn(bns: i128, code: i128) -> QualifiedName { QualifiedName { namespace_index: bns as u16, name: name_of(code) } }
+fn qn_dict(bns: i128, code: i128, dict: &Option<Vec<String>>) -> QualifiedName {
+    match dict {
+        Some(d) if code >= 2 && ((code - 2) as usize) < d.len() => QualifiedName { namespace_index: bns as u16, name: UAString::from(d[(code - 2) as usize].as_str()) },
+        _ => qn(bns, code),
+    }
+}
 fn status(s: StatusCode) -> i128 {
     let t: &[StatusCode] = &[StatusCode::Good, StatusCode::BadNodeIdUnknown, StatusCode::BadNothingToDo, StatusCode::BadBrowseNameInvalid, StatusCode::BadNoMatch];
     for (i, c) in t.iter().enumerate() { if s == *c { return i as i128; } }
     if s.is_good() { 98 } else { 99 }
 }
-fn state() -> Arc<RwLock<ServerState>> {
-    static S: OnceLock<Arc<RwLock<ServerState>>> = OnceLock::new();
+fn server() -> &'static (Arc<RwLock<ServerState>>, Arc<RwLock<AddressSpace>>) {
+    static S: OnceLock<(Arc<RwLock<ServerState>>, Arc<RwLock<AddressSpace>>)> = OnceLock::new();
     S.get_or_init(|| {
         let a = ServerBuilder::new_sample().pki_dir("/tmp/verif-asvc-pki").server().unwrap();
-        let r = a.server_state();
+        let r = (a.server_state(), a.address_space());
         std::mem::forget(a);
         r
-    }).clone()
+    })
 }
+fn state() -> Arc<RwLock<ServerState>> { server().0.clone() }
+/// the server's own address space: the standard node set
+fn std_space() -> Arc<RwLock<AddressSpace>> { server().1.clone() }
 
 impl Property for P {
     type Case = Case;
@@ -58,19 +71,21 @@ impl Property for P {
 
     fn exec(c: &Case) -> Out {
         let server_state = state();
-        let mut space = AddressSpace::default();
-        for k in 1..4 { let _ = space.register_namespace(&format!("urn:verif:{}", k)); }
-        for n in &c.nodes {
-            let _ = space.insert(Object::new(&nid(n.id), qn(n.bns, n.bname), "d", EventNotifier::empty()), None::<&[(&NodeId, &NodeId, ReferenceDirection)]>);
-        }
-        for (s, t, d) in &c.refs { space.insert_reference(&nid(*s), &nid(*d), nid(*t)); }
-        let space = Arc::new(RwLock::new(space));
+        let space = if c.std.is_some() { std_space() } else {
+            let mut space = AddressSpace::default();
+            for k in 1..4 { let _ = space.register_namespace(&format!("urn:verif:{}", k)); }
+            for n in &c.nodes {
+                let _ = space.insert(Object::new(&nid(n.id), qn(n.bns, n.bname), "d", EventNotifier::empty()), None::<&[(&NodeId, &NodeId, ReferenceDirection)]>);
+            }
+            for (s, t, d) in &c.refs { space.insert_reference(&nid(*s), &nid(*d), nid(*t)); }
+            Arc::new(RwLock::new(space))
+        };
         let request = TranslateBrowsePathsToNodeIdsRequest {
             request_header: RequestHeader::dummy(),
             browse_paths: Some(vec![BrowsePath {
                 starting_node: nid(c.start),
                 relative_path: RelativePath { elements: c.path.as_ref().map(|p| p.iter().map(|e| RelativePathElement {
-                    reference_type_id: nid(e.reftype), is_inverse: e.inv, include_subtypes: e.sub, target_name: qn(e.tns, e.tname) }).collect()) },
+                    reference_type_id: nid(e.reftype), is_inverse: e.inv, include_subtypes: e.sub, target_name: qn_dict(e.tns, e.tname, &c.std) }).collect()) },
             }]),
         };
         let res = guarded(|| verif_asvc::translate_browse_paths_to_node_ids(server_state.clone(), space.clone(), &request));
@@ -94,7 +109,7 @@ impl Property for P {
         }
         let plen = c.path.as_ref().map(|p| p.len()).unwrap_or(0);
         let malformed = plen == 0 || !c.nodes.iter().any(|n| n.id == c.start) || c.path.iter().flatten().any(|e| e.tns == 0 && e.tname == 0);
-        let tag = format!("{}{}-len{}{}{}", if malformed { "trivial-malformed-" } else { "" }, if n_targets > 1 { "many" } else if n_targets == 1 { "one" } else { "none" }, plen.min(4),
+        let tag = format!("{}{}{}-len{}{}{}", if c.std.is_some() { "std-" } else { "" }, if malformed { "trivial-malformed-" } else { "" }, if n_targets > 1 { "many" } else if n_targets == 1 { "one" } else { "none" }, plen.min(4),
             if c.path.iter().flatten().any(|e| e.inv) { "-inv" } else { "" },
             if c.path.iter().flatten().any(|e| e.reftype != 0 && !STD_TYPES.contains(&e.reftype)) { "-custom" } else { "" });
         let term = format!("(mk_case {} {} {} {})",
@@ -127,7 +142,7 @@ fn fixed_cases(_tier: &str) -> Vec<Case> {
     let nodes: Vec<Node> = vec![(1, 9), (2, 2), (3, 3), (4, 4), (5, 2), (6, 2)].into_iter().map(|(i, b)| Node { id: n1(i), bns: 0, bname: b }).collect();
     let mut refs = subtype_refs();
     refs.extend([(n1(1), 35, n1(2)), (n1(1), 47, n1(3)), (n1(2), 47, n1(4)), (n1(3), 46, n1(4)), (n1(1), CUSTOM[0], n1(5)), (n1(1), 40, n1(6))]);
-    let c = |start: i128, path: Option<Vec<Elem>>| Case { nodes: nodes.clone(), refs: refs.clone(), start: n1(start), path };
+    let c = |start: i128, path: Option<Vec<Elem>>| Case { nodes: nodes.clone(), refs: refs.clone(), start: n1(start), path, std: None };
     vec![
         c(1, Some(vec![el(33, false, true, 2)])),                       // hierarchical with subtypes: 2 and 5 (custom subtype of Organizes)
         c(1, Some(vec![el(33, false, false, 2)])),                      // exact type only: nothing
@@ -150,7 +165,80 @@ fn fixed_cases(_tier: &str) -> Vec<Case> {
     ]
 }
 
+/// A case over the standard node set: every forward reference of every node within `hops` forward
+/// hops of the start node, the whole HasSubtype hierarchy of the reference types, the browse names of
+/// all those nodes, and a forward-only path of `hops` elements guided along real references.  On
+/// such a path the service only ever looks at those references, so the model on this neighbourhood
+/// and the service on the full address space must agree.
+fn gen_std(r: &mut Rng) -> Option<Case> {
+    let space = std_space();
+    let sp = space.read();
+    let all = |n: i128| -> Vec<(i128, i128)> {
+        sp.find_references(&nid(n), None::<(NodeId, bool)>).unwrap_or_default().iter().map(|x| (zid(&x.reference_type), zid(&x.target_node))).collect()
+    };
+    let start = *r.pick(&[84i128, 85, 86, 87, 2253, 2268, 2274, 2295, 2296, 2256, 2260, 2004, 2013, 2020, 58, 61, 62, 63, 68, 31, 33, 24, 26, 2041, 3048, 11192]);
+    let want = 1 + r.below(3) as usize;
+    let mut refs: Vec<(i128, i128, i128)> = Vec::new();
+    let mut seen: BTreeSet<i128> = [start].into_iter().collect();
+    let mut frontier = vec![start];
+    let mut hops = 0;
+    for _ in 0..want {
+        let mut next = Vec::new();
+        let mut add: Vec<(i128, i128, i128)> = Vec::new();
+        for n in &frontier { for (t, d) in all(*n) { if t < 0 || d < 0 { return None; } add.push((*n, t, d)); if seen.insert(d) { next.push(d); } } }
+        if refs.len() + add.len() > 220 { break; }
+        refs.extend(add);
+        frontier = next;
+        hops += 1;
+    }
+    if hops == 0 { return None; }
+    // the reference type hierarchy
+    let mut types = vec![31i128];
+    let mut i = 0;
+    let mut parent: Vec<(i128, i128)> = Vec::new(); // (child, parent)
+    while i < types.len() {
+        let n = types[i]; i += 1;
+        for (t, d) in all(n) { if t == 45 { if !refs.contains(&(n, 45, d)) { refs.push((n, 45, d)); } parent.push((d, n)); if !types.contains(&d) { types.push(d); } } }
+    }
+    // browse names
+    let mut dict: Vec<String> = Vec::new();
+    let mut nodes: Vec<Node> = Vec::new();
+    let mut ids: BTreeSet<i128> = seen.clone();
+    for (a, _, d) in &refs { ids.insert(*a); ids.insert(*d); }
+    for id in &ids {
+        if let Some(n) = sp.find_node(&nid(*id)) {
+            let bn = n.as_node().browse_name();
+            let name = bn.name.as_ref().to_string();
+            let code = match dict.iter().position(|x| *x == name) { Some(k) => k, None => { dict.push(name); dict.len() - 1 } } as i128 + 2;
+            nodes.push(Node { id: *id, bns: bn.namespace_index as i128, bname: code });
+        }
+    }
+    let name_of_node = |id: i128| nodes.iter().find(|n| n.id == id).map(|n| (n.bns, n.bname));
+    let parent_of = |t: i128| parent.iter().find(|e| e.0 == t).map(|e| e.1);
+    let mut cur = start;
+    let mut path = Vec::new();
+    for _ in 0..hops {
+        let cands: Vec<(i128, i128)> = refs.iter().filter(|e| e.0 == cur).map(|e| (e.1, e.2)).collect();
+        if cands.is_empty() { break; }
+        let (t, next) = *r.pick(&cands);
+        let (tns, tname) = if r.chance(1, 8) { (0, 2 + r.below(dict.len() as u64) as i128) } else { name_of_node(next).unwrap_or((0, 2)) };
+        let (reftype, sub) = match r.below(8) {
+            0 => (0, r.chance(1, 2)),
+            1..=3 => (t, r.chance(1, 2)),
+            4 => (33, true),
+            5 => (parent_of(t).unwrap_or(t), true),
+            6 => (parent_of(t).and_then(parent_of).unwrap_or(31), true),
+            _ => (parent_of(t).unwrap_or(31), false),
+        };
+        path.push(Elem { reftype, inv: false, sub, tns, tname });
+        cur = next;
+    }
+    if path.is_empty() { return None; }
+    Some(Case { nodes, refs, start, path: Some(path), std: Some(dict) })
+}
+
 fn gen_case(r: &mut Rng) -> Case {
+    if r.chance(1, 10) { if let Some(c) = gen_std(r) { return c; } }
     let n = 3 + r.below(6) as i128;
     let ids: Vec<i128> = (1..=n).map(n1).collect();
     let mut nodes: Vec<Node> = Vec::new();
@@ -201,7 +289,7 @@ fn gen_case(r: &mut Rng) -> Case {
             tname: if r.chance(1, 25) { r.below(2) as i128 } else { 2 + r.below(3) as i128 } }).collect())
     };
     if r.chance(1, 20) { start = n1(77); }
-    Case { nodes, refs, start, path }
+    Case { nodes, refs, start, path, std: None }
 }
 
 fn main() { run_main::<P>() }
